@@ -166,6 +166,9 @@ class Interp:
                     raise Unsupported("opt path " + str(p))
             elif v[0] == "tuple":
                 v = v[1][int(p)]
+            elif v[0] == "closure":
+                # a captured variable: field i of the closure environment
+                v = v[2][int(p)]
             elif v[0] == "top":
                 return ("top",)
             else:
